@@ -228,7 +228,9 @@ def op_key_of(e, n):
     if o == "Hang":
         return "%s:send_command:no-answer->Hang" % fam
     if e["at"] == 0:
-        return "%s:%s:%s:no-fault->%s" % (fam, meth, OP.brty_of(e["k"]), out)
+        if OP.scenario(d, e["k"]).expect == "Unsupported":
+            return "%s:%s:unsupported-bitrate->%s" % (fam, meth, out)
+        return "%s:%s:%s:no-fault->%s" % (fam, meth, e["k"], out)
     if f in ("ChipStatus", "CommStatus", "ErrorFrame"):
         what = "chip-error"
     elif f in ("RegValue", "NbTg"):
